@@ -19,7 +19,7 @@
 //   end ok
 //   endcase
 // A decoder that does not return is detected by a CPU-time (not wall-clock) limit of the
-// worker process: ITIMER_VIRTUAL, 2 s of user time for a computation that needs microseconds.
+// worker process: ITIMER_VIRTUAL, 0.3 s of user time for a computation that needs microseconds.
 #include <pika/affinity/affinity_data.hpp>
 #include <pika/affinity/parse_affinity_options.hpp>
 #include <pika/modules/errors.hpp>
@@ -210,7 +210,7 @@ static void run_case(kase const& c, bool resume_init)
         {
             std::fflush(stdout);
             std::string line;
-            arm(500);
+            arm(300);
             try
             {
                 std::vector<pt::mask_type> aff;
@@ -235,7 +235,7 @@ static void run_case(kase const& c, bool resume_init)
     std::fflush(stdout);
     {
         std::string line;
-        arm(500);
+        arm(300);
         try
         {
             pika::detail::affinity_data ad;
